@@ -345,3 +345,150 @@ Proof.
     repeat (destruct Hp as [<-|Hp]; [cbn; eauto 6|]). destruct Hp.
   - eexists. split; [vm_compute; reflexivity|]. repeat split.
 Qed.
+
+(* ---------- the (fixed) killPods path ---------- *)
+(* what the patch-then-delete of pod p does to an element q of the API server's list *)
+Definition hkill (p q : pod) : pod :=
+  let q1 := if same_id (p_task p) (p_idx p) q then mkPod (p_task q) (p_idx q) (p_phase q) (p_del q) true else q in
+  if p_del p then q1
+  else if same_id (p_task p) (p_idx p) q1 then mkPod (p_task q1) (p_idx q1) (p_phase q1) true (p_oos q1) else q1.
+Definition kfun (kill : list pod) (q : pod) : pod := fold_left (fun q p => hkill p q) kill q.
+
+Lemma kill_effects_map : forall kill api, kill_effects [] kill api = map (kfun kill) api.
+Proof.
+  unfold kill_effects. induction kill as [|p kill IH]; intros api; cbn [fold_left].
+  - unfold kfun. cbn. rewrite map_id. reflexivity.
+  - rewrite IH. cbn [fails_patch fails_delete existsb]. rewrite orb_false_r.
+    unfold kfun at 2. cbn [fold_left]. fold (kfun kill).
+    destruct (p_del p) eqn:Ed.
+    + unfold api_patch_oos, update_pod. rewrite map_map. apply map_ext. intros q. unfold hkill. rewrite Ed. reflexivity.
+    + unfold api_delete, api_patch_oos, update_pod. rewrite !map_map. apply map_ext. intros q. unfold hkill. rewrite Ed. reflexivity.
+Qed.
+
+Lemma hkill_id : forall p q, p_task (hkill p q) = p_task q /\ p_idx (hkill p q) = p_idx q.
+Proof.
+  intros. unfold hkill. destruct (same_id (p_task p) (p_idx p) q); destruct (p_del p); cbn;
+    try (split; reflexivity); match goal with |- context [if ?c then _ else _] => destruct c end; split; reflexivity.
+Qed.
+Lemma hkill_del_mono : forall p q, p_del q = true -> p_del (hkill p q) = true.
+Proof.
+  intros p q H. unfold hkill. destruct (same_id (p_task p) (p_idx p) q); destruct (p_del p); cbn; auto;
+    match goal with |- context [if ?c then _ else _] => destruct c end; cbn; auto.
+Qed.
+Lemma hkill_other : forall p q, same_id (p_task p) (p_idx p) q = false -> hkill p q = q.
+Proof. intros p q H. unfold hkill. rewrite H. destruct (p_del p); auto. rewrite H. reflexivity. Qed.
+Lemma hkill_self : forall p q, same_id (p_task p) (p_idx p) q = true -> (p_del p = true -> p_del q = true) ->
+  p_del (hkill p q) = true.
+Proof.
+  intros p q H E. destruct (p_del p) eqn:Ed.
+  - apply hkill_del_mono. auto.
+  - unfold hkill. rewrite H, Ed. unfold same_id in *. cbn. rewrite H. reflexivity.
+Qed.
+
+Lemma kfun_id : forall kill q, p_task (kfun kill q) = p_task q /\ p_idx (kfun kill q) = p_idx q.
+Proof.
+  unfold kfun. induction kill as [|p kill IH]; intros q; cbn [fold_left]; auto.
+  destruct (IH (hkill p q)) as [A B]. destruct (hkill_id p q) as [C D]. split; congruence.
+Qed.
+Lemma kfun_del_mono : forall kill q, p_del q = true -> p_del (kfun kill q) = true.
+Proof.
+  unfold kfun. induction kill as [|p kill IH]; intros q H; cbn [fold_left]; auto. apply IH, hkill_del_mono, H.
+Qed.
+Lemma kfun_other : forall kill q, in_kill kill q = false -> kfun kill q = q.
+Proof.
+  unfold kfun, in_kill. induction kill as [|p kill IH]; intros q H; cbn [fold_left]; auto.
+  cbn [existsb] in H. apply orb_false_iff in H. destruct H as [H1 H2].
+  rewrite hkill_other by (rewrite same_id_sym; exact H1). apply IH; exact H2.
+Qed.
+Lemma kfun_member_gen : forall kill q q',
+  In q kill -> p_task q' = p_task q -> p_idx q' = p_idx q -> (p_del q = true -> p_del q' = true) ->
+  p_del (kfun kill q') = true.
+Proof.
+  unfold kfun. induction kill as [|p kill IH]; intros q q' Hin Ht Hi Hd; [destruct Hin|]. cbn [fold_left].
+  destruct Hin as [->|Hin].
+  - apply kfun_del_mono. apply hkill_self; auto.
+    unfold same_id. rewrite Ht, Hi, Pos.eqb_refl, Z.eqb_refl. reflexivity.
+  - destruct (hkill_id p q') as [A B]. apply (IH q); auto; try congruence.
+    intros E. apply hkill_del_mono. auto.
+Qed.
+Lemma kfun_member : forall kill q, In q kill -> p_del (kfun kill q) = true.
+Proof. intros. apply (kfun_member_gen kill q q); auto. Qed.
+
+Lemma filter_false : forall {A} (l : list A), filter (fun _ => false) l = [].
+Proof. induction l; cbn; auto. Qed.
+
+Lemma kill_select_filter : forall sp st view rt tg,
+  exists g, fst (kill_select sp st view rt tg) = filter g view.
+Proof.
+  intros sp st view rt tg. unfold kill_select.
+  destruct tg as [[[t|]|[t|] [[t' i]|]|]|]; cbn [fst];
+    try (exists (fun _ => false); rewrite filter_false; reflexivity);
+    try (eexists; reflexivity).
+  destruct (Pos.eqb t t'); cbn [fst]; [eexists; reflexivity|exists (fun _ => false); rewrite filter_false; reflexivity].
+Qed.
+
+Lemma any_fault_nil : forall kill, any_fault [] kill = false.
+Proof. unfold any_fault. induction kill as [|p kill IH]; cbn; auto. rewrite andb_false_r. exact IH. Qed.
+
+Lemma in_kill_filter : forall g P q, NoDup (pod_ids P) -> In q P -> in_kill (filter g P) q = g q.
+Proof.
+  intros g P q Hnd Hin. unfold in_kill. destruct (g q) eqn:Eg.
+  - apply existsb_exists. exists q. split; [apply filter_In; auto|].
+    unfold same_id. rewrite Pos.eqb_refl, Z.eqb_refl. reflexivity.
+  - destruct (existsb _ (filter g P)) eqn:E; auto. exfalso.
+    apply existsb_exists in E. destruct E as (p & Hp & Hs). apply filter_In in Hp. destruct Hp as [Hp Hg].
+    apply same_id_true in Hs. destruct Hs as [A B].
+    pose proof (find_unique P p Hnd Hp) as F1. pose proof (find_unique P q Hnd Hin) as F2.
+    rewrite A, B in F1. rewrite F1 in F2. inversion F2; subst. congruence.
+Qed.
+
+Lemma tsum_split : forall {A} (h : A -> T) (g : A -> bool) l,
+  tsum (fun x => if g x then one_term else h x) l =
+  tadd (tsum (fun _ => one_term) (filter g l)) (tsum h (filter (fun x => negb (g x)) l)).
+Proof.
+  intros. rewrite !tsum_filter, <- tsum_tadd. apply tsum_ext_in. intros x _.
+  destruct (g x); cbn [negb]; [rewrite tadd_z_r|rewrite tadd_z_l]; reflexivity.
+Qed.
+
+Lemma kill_pods_success_shape : forall w rt tg u w',
+  kill_pods w rt tg u [] = (w', false, true) ->
+  exists kill, (exists g, kill = filter g (v_pods w)) /\
+    w_pods w' = kill_effects [] kill (w_pods w) /\
+    let rest := filter (fun p => negb (in_kill kill p)) (v_pods w) in
+    st_cnt (w_st w') = fst (tally rest) /\ st_term (w_st w') = Z.of_nat (length kill) + snd (tally rest).
+Proof.
+  intros w rt tg u w' H. unfold kill_pods, kill_pods_gen in H.
+  destruct tg as [[t|t p|]|].
+  all: try (destruct (kill_select _ _ _ _ _) as [kill term0] eqn:Hsel;
+            rewrite any_fault_nil in H; cbn [fails_status existsb] in H).
+  all: try (inversion H; fail).
+  all: exists kill; split;
+    [match type of Hsel with kill_select ?a ?b ?c ?d ?e = _ =>
+       destruct (kill_select_filter a b c d e) as [g Hg]; rewrite Hsel in Hg; exists g; exact Hg end|].
+  all: inversion H; subst; clear H.
+  all: try match goal with |- context [match ?g with Some _ => _ | None => _ end] => destruct g end.
+  all: cbn; rewrite apply_upd_cnt, apply_upd_term; cbn; auto.
+Qed.
+
+(* every successful kill (job, task or pod target; any retain rule; any update
+   function) with a fresh pod view: the written counters partition the pods *)
+Theorem kill_counters_partition : forall w rt tg u w',
+  kill_pods w rt tg u [] = (w', false, true) ->
+  v_pods w = w_pods w -> NoDup (pod_ids (w_pods w)) ->
+  (st_cnt (w_st w'), st_term (w_st w')) = tally (w_pods w').
+Proof.
+  intros w rt tg u w' H Hfresh Hnd.
+  destruct (kill_pods_success_shape w rt tg u w' H) as (kill & (g & Hg) & Hp & Hc & Ht).
+  rewrite Hfresh in *. set (P := w_pods w) in *.
+  rewrite Hc, Ht, Hp, kill_effects_map, tally_tsum, tsum_map.
+  rewrite (tsum_ext_in _ (fun q => if g q then one_term else classify q)).
+  - rewrite tsum_split, tsum_const_len, <- Hg.
+    assert (Er : filter (fun p => negb (in_kill kill p)) P = filter (fun x => negb (g x)) P).
+    { apply filter_ext_in. intros q Hq. rewrite Hg, (in_kill_filter g P q Hnd Hq). reflexivity. }
+    rewrite Er, <- tally_tsum. destruct (tally (filter (fun x => negb (g x)) P)) as [[a b c d e] z].
+    unfold tadd, cadd, c0. cbn [fst snd cP cR cS cF cU]. apply T_ext; lia.
+  - intros q Hq. pose proof (in_kill_filter g P q Hnd Hq) as Ek. rewrite <- Hg in Ek.
+    destruct (g q) eqn:Eg.
+    + unfold classify. rewrite kfun_member; auto. rewrite Hg. apply filter_In. auto.
+    + rewrite kfun_other by exact Ek. reflexivity.
+Qed.
